@@ -51,7 +51,8 @@ func c05scenarios(quick bool) []c05scn {
 		{name: "one-shot;one-shot ∥ one-shot", threads: [][]Op{{c05a1, c05a3}, {c05a2}}},
 		{name: "one-shot ∥ param", threads: [][]Op{{c05a4}, {c05p1}}},
 		{name: "param ∥ header", threads: [][]Op{{c05p1}, {c05h1}}},
-		{name: "shared schema validator", shared: "schema", threads: [][]Op{{{Kind: "shared", Val: `{"a":[1,"x"],"b":"aa"}`}}, {{Kind: "shared", Val: `{"a":[1],"c":3}`}}}},
+		{name: "shared schema validator", shared: "schema", threads: [][]Op{{{Kind: "shared", Val: `{"a":[1,"x"],"b":"aa","s_x":"abc","t":[1,"2020-01-01",true]}`}}, {{Kind: "shared", Val: `{"a":[1],"c":3,"i_y":3,"o":1,"s_z":"ab"}`}}}},
+		{name: "shared schema validator", shared: "schema", threads: [][]Op{{{Kind: "shared", Val: `{"i_a":4,"i_b":5,"t":[1,"x",1],"o":7}`}}, {{Kind: "shared", Val: `{"s_a":"abcd","s_b":"a","b":"bb","o":"s"}`}, {Kind: "shared", Val: `{"a":["xx",3]}`}}}},
 		{name: "shared param validator", shared: "param", threads: [][]Op{{{Kind: "shared", Val: `[]string:aa|b`}}, {{Kind: "shared", Val: `[]string:aa|bb`}}}},
 		{name: "helpers", threads: [][]Op{{{Kind: "helper", Def: "pattern"}}, {{Kind: "helper", Def: "enum"}, {Kind: "helper", Def: "pattern"}}}},
 		{name: "setter ∥ spec", heavy: true, threads: [][]Op{{c05on}, {c05sB}}},
@@ -70,7 +71,10 @@ func c05scenarios(quick bool) []c05scn {
 	return s
 }
 
-const c05sharedSchema = `{"type":"object","properties":{"a":{"type":"array","items":{"anyOf":[{"type":"integer","maximum":2},{"type":"string","minLength":2}]}},"b":{"type":"string","pattern":"^b"}},"additionalProperties":{"type":"string"}}`
+// the shared long-lived validator exercises every keyword group that owns sub-validators or scratch
+// state: properties, two pattern properties with different sub-schemas, additionalProperties, tuple and
+// list items, anyOf/oneOf/not, dependencies, enum, format, numeric and string constraints
+const c05sharedSchema = `{"type":"object","properties":{"a":{"type":"array","items":{"anyOf":[{"type":"integer","maximum":2},{"type":"string","minLength":2}]}},"b":{"type":"string","pattern":"^b"},"t":{"type":"array","items":[{"type":"integer"},{"type":"string","format":"date"}],"additionalItems":{"type":"boolean"},"uniqueItems":true},"o":{"oneOf":[{"type":"integer"},{"maximum":2},{"type":"string"}],"not":{"enum":[7]}}},"patternProperties":{"^s_":{"type":"string","minLength":3},"^i_":{"type":"integer","multipleOf":2}},"dependencies":{"b":{"required":["a"]}},"additionalProperties":{"type":"string"},"minProperties":1}`
 
 func c05(c *hx.Ctx) int {
 	if c.Worker >= 0 {
@@ -141,6 +145,7 @@ func c05worker(c *hx.Ctx) int {
 			resetPools()
 			validate.SetContinueOnErrors(false)
 			if !s.heavy {
+				validate.Pattern("flush", "query", "x", "^verif-flush$") // state flush, see c15.go
 				validate.VerifSetRegexpCache() // heavy scenarios keep the (warm) regexp cache: ~1000 lock-free lookups
 			}
 			switch s.shared {
